@@ -627,32 +627,31 @@ class TcpServerConnectionHandler:
         self.klongloop = klongloop
         self.shutdown_event = shutdown_event
 
-    async def _on_connect(self, nc):
-        logging.info(f"New connection from {str(nc.conn_provider)}")
-        fn = self.klong['.srv.o']
+    def _run_handler(self, name, *args):
+        fn = self.klong[name]
         if callable(fn):
             try:
-                fn(nc)
+                fn(*args)
             except Exception as e:
-                logging.warning(f"Server: error while running on_connect handler: {e}")
+                logging.warning(f"Server: error while running {name} handler: {e}")
+
+    def _call_handler(self, name, *args):
+        # .srv.o / .srv.c / .srv.e are Klong functions: they are evaluated on the klong loop like every other piece
+        # of Klong code (the interpreter is not thread-safe and this coroutine runs on the io loop).  Queued, not
+        # awaited: the handler of a new connection is queued before any request of that connection can be.
+        self.klongloop.call_soon_threadsafe(self._run_handler, name, *args)
+
+    async def _on_connect(self, nc):
+        logging.info(f"New connection from {str(nc.conn_provider)}")
+        self._call_handler('.srv.o', nc)
 
     async def _on_close(self, nc):
         logging.info(f"Connection closed from {str(nc.conn_provider)}")
-        fn = self.klong['.srv.c']
-        if callable(fn):
-            try:
-                fn(nc)
-            except Exception as e:
-                logging.warning(f"Server: error while running on_close handler: {e}")
+        self._call_handler('.srv.c', nc)
 
     async def _on_error(self, nc, e):
         logging.info(f"Connection error from {str(nc.conn_provider)}")
-        fn = self.klong['.srv.e']
-        if callable(fn):
-            try:
-                fn(nc, e)
-            except Exception as e:
-                logging.warning(f"Server: error while running on_error handler: {e}")
+        self._call_handler('.srv.e', nc, e)
 
     async def handle_client(self, reader: StreamReader, writer: StreamWriter):
         """
